@@ -664,7 +664,8 @@ def st_history_step(runner: OptRunner, checkpoints: bool = True, **kw: Any):
     base = gen.st_step(n, gscale, gbias=runner.config.get("gbias"), **kw)
     if not checkpoints or runner.lr_tensor:
         return base
-    ops = [None] * 10 + (["save"] if getattr(runner, "_ckpt", None) is None else ["load", "load", "save"])
+    # a checkpoint is taken early with probability 1/4 per step; once one exists it is rolled back to in about every fifth step
+    ops = ([None] * 6 + ["save"] * 2) if getattr(runner, "_ckpt", None) is None else ([None] * 9 + ["load"] * 3 + ["save"])
 
     def add(s: dict, op: Any) -> dict:
         if op is not None:
